@@ -23,7 +23,7 @@ def gen(rnd, pp, rule_text, conserve, allow_interval=True):
     if conserve and A["isotope"]:
         A["isotope"] = [{"v": "s:" + rnd.choice(["13C", "15N", "18O", "D"]), "m": 1}]
     if rnd.random() < 0.25:
-        pool = [s for s in anngen.STATICS_MASSY if "N-Term" not in s and "C-Term" not in s]
+        pool = [s for s in anngen.STATICS_MASSY if "-term" not in s.lower()]
         A["static"] = [{"v": "s:" + s, "m": 1} for s in rnd.sample(pool, 1)]
     if allow_interval and not conserve and n >= 3 and rnd.random() < 0.3:
         # an interval that does not straddle a cut of this rule
